@@ -199,6 +199,17 @@ theorem program_with_confines (which : Fin 3) (arg : Nat) (body : List Cmd) (w :
     (runCmd Generated.CtxIR.managers (.withC which arg body) w).1.glob which = w.glob which := by
   rw [runCmd_refines_spec _ generated_good, spec_with]; simp
 
+/-- **The managers are transparent to control flow.** On the code's IR: a `with` block raises exactly when its body
+    (run with the setting overridden) raises — it neither swallows nor invents an exception — and it adds nothing
+    to and removes nothing from what the body observes. -/
+theorem program_with_transparent (which : Fin 3) (arg : Nat) (body : List Cmd) (w : World) :
+    (runCmd Generated.CtxIR.managers (.withC which arg body) w).2 =
+      (runCmds Generated.CtxIR.managers body (w.put (setG w.glob which arg))).2 ∧
+    (runCmd Generated.CtxIR.managers (.withC which arg body) w).1.log =
+      (runCmds Generated.CtxIR.managers body (w.put (setG w.glob which arg))).1.log := by
+  rw [runCmd_refines_spec _ generated_good, runCmds_refines_spec _ generated_good]
+  exact ⟨rfl, rfl⟩
+
 /-- **In force at every depth.** Code under a stack `p` of enclosing blocks (outermost first) runs exactly in the
     world where the settings are `enter w.glob p`; its snapshots and its outcome are what comes out. -/
 theorem spec_nest (inner : List Cmd) :
